@@ -17,6 +17,7 @@ From Flocq Require Import Core BinarySingleNaN.
 From SJ Require Import Base.Bytes Base.FloatB Gen.Tables Model.Read Model.Num Spec.Syntax Spec.Denote.
 From SJ Require Import Proofs.GrammarNum Proofs.LexGlue Proofs.FloatDefault Proofs.FloatOracle Proofs.LexOracle.
 Open Scope Z_scope.
+Set Warnings "-abstract-large-number".
 
 (* |value| of the literal as a real number *)
 Definition lit_real (n : numlit) : R := (IZR (fst (lit_value n)) * powerRZ 10 (snd (lit_value n)))%R.
@@ -91,7 +92,8 @@ Proof.
       * destruct (rne_decimal m e); try reflexivity; discriminate Hfin.
   - right. split; [exact Hge|].
     assert (Hpos : 0 < m).
-    { destruct (Z.eq_dec m 0) as [->|Hne]; [|lia]. exfalso.
+    { destruct (Z_lt_le_dec 0 m) as [Hp|Hp]; [exact Hp|]. exfalso.
+      assert (Hz : m = 0) by (clear - Hm Hp; lia). rewrite Hz in Hge.
       rewrite Rmult_0_l, RNE64_0, Rabs_R0 in Hge. pose proof (bpow_gt_0 radix2 1024). lra. }
     rewrite (rne_decimal_overflow m e Hpos Hge) in G. cbn [b64_is_inf] in G. exact G.
 Qed.
